@@ -673,7 +673,7 @@ struct MemEngine : Engine {
                                 for (unsigned bad = 0; bad < 2; ++bad) { if (pl == 3 && bad) continue; sweep.push_back({ti, (unsigned char)op, (unsigned char)form, (unsigned char)n, (unsigned char)pl, (unsigned char)bad, 0}); }
                         }
                 if (t->has_gather) for (unsigned op = 2; op < 4; ++op) for (unsigned form = 0; form < 2; ++form) for (unsigned n = 0; n <= W + 2; ++n) { if (form == 1 && n > W) continue;
-                    for (unsigned pl = 0; pl < 5; ++pl) sweep.push_back({ti, (unsigned char)op, (unsigned char)(form ? 2 : 0), (unsigned char)n, (unsigned char)pl, 0, 0}); }
+                    for (unsigned pl = 0; pl < 7; ++pl) sweep.push_back({ti, (unsigned char)op, (unsigned char)(form ? 2 : 0), (unsigned char)n, (unsigned char)pl, 0, 0}); }
                 for (unsigned lane = 0; lane < W; ++lane) { sweep.push_back({ti, 6, 0, (unsigned char)lane, 0, 0, 0}); sweep.push_back({ti, 7, 0, (unsigned char)lane, 0, 0, 0}); }
                 sweep.push_back({ti, 4, 0, (unsigned char)W, 0, 0, 0}); sweep.push_back({ti, 4, 0, (unsigned char)W, 1, 0, 0}); sweep.push_back({ti, 5, 0, 0, 0, 0, 0});
                 if (tier == "thorough") {
@@ -728,13 +728,17 @@ struct MemEngine : Engine {
         // base pointer mid-window; active lanes aim at distinct elements next to page boundaries; inactive lanes are wild
         const unsigned W = t->width, E = t->elem; std::string pages = "WWWNWWWW"; (void)store;
         std::size_t base = 4 * PG + 512; std::vector<std::int64_t> idx; unsigned m = std::min(n, W);
+        // variants 5 and 6: the BASE POINTER itself is not dereferenceable (it sits in the inaccessible page, or one element before
+        // the data): p[0] belongs to no active lane, so an implementation that substitutes index 0 for inactive lanes faults
+        if (variant == 5) base = 3 * PG + 256; else if (variant == 6) base = 4 * PG - E;
         for (unsigned i = 0; i < W; ++i) {
             std::int64_t v;
             if (i < m) {
                 // targets: last elements of page 2 (flush against NONE page 3), first elements of page 4, around base, negative side
                 std::size_t off;
-                switch (variant >= 2 ? 4u : (i + variant) % 4) { case 0: off = 3 * PG - (std::size_t)(i / 4 + 1) * E; break; case 1: off = 4 * PG + (std::size_t)(i / 4) * E; break; case 2: off = base + (std::size_t)(i + 3) * 5 * E; break;
+                switch (variant >= 5 ? 5u : variant >= 2 ? 4u : (i + variant) % 4) { case 0: off = 3 * PG - (std::size_t)(i / 4 + 1) * E; break; case 1: off = 4 * PG + (std::size_t)(i / 4) * E; break; case 2: off = base + (std::size_t)(i + 3) * 5 * E; break;
                     case 3: off = 1 * PG + (std::size_t)(i * 3 + 1) * E; break;
+                    case 5: off = (i % 2) ? 4 * PG + (std::size_t)(i + 1) * E : 3 * PG - (std::size_t)(i + 1) * E; break;      // both sides of the inaccessible page, never p[0]
                     default:   // variants 2..4: orderings and collisions among the ACTIVE lanes
                         if (variant == 2) off = 3 * PG - (std::size_t)(i + 1) * E;                      // all negative, strictly descending, ending flush against the NONE page
                         else if (variant == 3) off = base - (std::size_t)(2 * E) * (i % 2);             // every active lane aims at one of two elements (heavy duplicates, incl. index 0)
@@ -753,7 +757,7 @@ struct MemEngine : Engine {
             }
             idx.push_back(v);
         }
-        s.setu("p", base); s.set("pages", pages); s.setlist("idx", idx); s.set("place", variant == 0 ? "gs_edges" : variant == 1 ? "gs_dup" : variant == 2 ? "gs_desc_neg" : variant == 3 ? "gs_two_targets" : "gs_scramble");
+        s.setu("p", base); s.set("pages", pages); s.setlist("idx", idx); s.set("place", variant == 0 ? "gs_edges" : variant == 1 ? "gs_dup" : variant == 2 ? "gs_desc_neg" : variant == 3 ? "gs_two_targets" : variant == 4 ? "gs_scramble" : variant == 5 ? "gs_base_in_none_page" : "gs_base_before_data");
     }
 
     void sweep_plan(std::uint64_t i, Plan& out) override {
@@ -865,7 +869,7 @@ struct MemEngine : Engine {
                 else s.set("fault", "none");
             } else if (w < 84 && t->has_gather) {
                 bool sc = r.chance(1, 2); s.op = sc ? "scatter" : "gather"; bool ct = r.chance(1, 3); if (ct && n > W) n = W;
-                s.set("form", ct ? "ct" : "rt"); s.setu("n", n); gs_indices(s, t, n, (unsigned)r.below(5), r.next() % 1000, sc);
+                s.set("form", ct ? "ct" : "rt"); s.setu("n", n); gs_indices(s, t, n, (unsigned)r.below(7), r.next() % 1000, sc);
                 if ((fmask & 2) && sc && r.chance(1, 3)) { s.set("fault", "neigh"); s.setu("k", r.below(4096)); s.setu("ntag", r.below(1u << 20)); } else s.set("fault", "none");
             } else if (w < 88) { s.op = "fromarr"; s.setu("n", W); place(s, t, W, false, false, r.chance(1, 2) ? "end_flush" : "start_flush", 1 + (unsigned)r.below(6), 0, 'N'); }
             else if (w < 91) { s.op = "toarr"; }
